@@ -474,7 +474,7 @@ func (t *Collection) VisitItemsRandom(
 	var j int
 	v := func(i *Item, depth uint64) bool {
 		if j == 0 {
-			blockStore = append(blockStore, i.Key)
+			blockStore = append(blockStore, append([]byte(nil), i.Key...)) // The item may be released.
 			j = 1
 		} else if j >= lenBlock {
 			j = 0
@@ -488,6 +488,7 @@ func (t *Collection) VisitItemsRandom(
 		return err
 	}
 	err = t.VisitItemsAscendEx(si.Key, false, v)
+	t.store.ItemDecRef(t, si) // Release the reference MinItem took for us.
 	if err != nil {
 		return err
 	}
@@ -512,7 +513,7 @@ func (t *Collection) VisitItemsRandom(
 					return visitor(itm, depth)
 				}
 				first = true
-				blockStore[i] = itm.Key
+				blockStore[i] = append([]byte(nil), itm.Key...) // The item may be released.
 				return false
 			}
 			err = t.VisitItemsAscendEx(si, true, vis)
@@ -548,7 +549,7 @@ func (t *Collection) VisitItemsAscendBlockEx(
 	var j int
 	v := func(i *Item, depth uint64) bool {
 		if j == 0 {
-			blockStore = append(blockStore, i.Key)
+			blockStore = append(blockStore, append([]byte(nil), i.Key...)) // The item may be released.
 			j = 1
 		} else if j >= lenBlock {
 			j = 0
@@ -562,6 +563,7 @@ func (t *Collection) VisitItemsAscendBlockEx(
 		return err
 	}
 	err = t.VisitItemsAscendEx(si.Key, false, v)
+	t.store.ItemDecRef(t, si) // Release the reference MinItem took for us.
 	if err != nil {
 		return err
 	}
@@ -632,6 +634,7 @@ func (t *Collection) Len() (l int64, err error) {
 		return 0, nil // Empty collection.
 	}
 	err = t.VisitItemsAscendEx(si.Key, false, visitor)
+	t.store.ItemDecRef(t, si) // Release the reference MinItem took for us.
 	return
 }
 
